@@ -592,6 +592,32 @@ fn main() {
                 },
                 _ => "bad-op".to_string(),
             },
+            // the public communication-state decoders of `messages::radio_status`, at any bit offset of a buffer
+            ["Q", kind, off, t, h] => match (off.parse::<usize>(), t.parse::<u8>(), unhex(h)) {
+                (Ok(off), Ok(t), Some(bs)) if off < 8 => {
+                    use messages::radio_status::{parse_radio, ItdmaMessage, SotdmaMessage};
+                    let kind = kind.to_string();
+                    let r = catch_unwind(|| {
+                        let inp = (&bs[..], off);
+                        let res = match kind.as_str() {
+                            "radio" => parse_radio(inp, t),
+                            "sotdma" => SotdmaMessage::parse(inp),
+                            _ => ItdmaMessage::parse(inp),
+                        };
+                        match res {
+                            Ok(((rest, o2), rs)) => {
+                                let mut s = String::from("ok");
+                                radio(&mut s, &rs);
+                                write!(s, " rest={}", rest.len() * 8 - o2).unwrap();
+                                s
+                            }
+                            Err(_) => "err".to_string(),
+                        }
+                    });
+                    r.unwrap_or_else(|_| "panic".to_string())
+                }
+                _ => "bad-op".to_string(),
+            },
             ["T", name, code] => match code.parse::<u8>() {
                 Ok(c) => do_table(name, c),
                 Err(_) => "bad-op".to_string(),
